@@ -10,6 +10,7 @@ delivered calls must respect the consumer contract (atoms >= 1, rule-body weight
 begin/end pairing when accepted)."""
 import random
 from props.calls import enc_all, dec_all, pretty, INT_MAX, ATOM_MAX
+from props import reuse as RU
 
 PID = 'C10'
 HARNESS = 'h_c10'
@@ -25,18 +26,18 @@ def variant_of(c):
 
 
 def primed(c):
-    """harness/reuse.h: every other case (FNV-1a over the case's integers, bit 17) is read by a reader OBJECT that has read an accepted
-    incremental primer text before (reader reuse; invisible for a correct reader, so neither the model nor the oracle depends on it)"""
-    h = 1469598103934665603
-    for x in c:
-        h = ((h ^ (x & 0xFFFFFFFFFFFFFFFF)) * 1099511628211) & 0xFFFFFFFFFFFFFFFF
-    return bool((h >> 17) & 1)
+    """harness/reuse.h: every other case (FNV-1a over the case's integers, bit 17) is read by a reader OBJECT that has read - or REFUSED - a
+    primer text before, chosen by further hash bits (props/reuse.py reads the primer tables from reuse.h; reader reuse is invisible for a
+    correct reader, so neither the model nor the oracle depends on it)"""
+    return RU.primed(c)
 
 READY = True
 RULE = ('cases = input texts: (a) programs (1-4 steps, all directive kinds, empty heads/bodies/aggregates, negative bounds, weights 0, minimize with '
         'negative weights, all values/modifiers, terms with arguments and strings) printed under random atom spellings (a..z, x<n>, x_<n>) and random '
         'layouts (blank/tab/LF/CR/CRLF after tokens, comment lines and stray dots between statements), each program under several layouts; '
-        '(b) malformed texts (mutations of (a), token soup); non-trivial = accepted with at least one directive delivered; distinct = distinct case tuples')
+        '(b) malformed texts (mutations of (a), token soup); '
+        'every other case (hash of the case) is read by a reader OBJECT that before read or REFUSED one of the 7 text primer texts of harness/reuse.h (accepted incremental ones; refused inside a rule body / aggregate / string / second step, #step without #incremental); '
+        'non-trivial = accepted with at least one directive delivered; distinct = distinct case tuples')
 TRUSTED_BASE = ['C09 refinement: BufferedStream behaves like the abstract stream of coq/C09/Spec.v (proved there)',
                 'RuleBuilder delivers head/body as filled, dropping weight-0 literals (modelled, property C11)',
                 'props/C10.py printer and comparison (oracle on the implementation)']
@@ -319,7 +320,7 @@ def nontrivial(case, obs):
 def describe(case):
     text, prog = split(case)
     s = bytes(x & 255 for x in text).decode('latin-1').encode('unicode_escape').decode()
-    rd = "reused(after reading '#incremental.\\n')" if primed(case) else 'fresh'
+    rd = RU.reader(case, 'text')
     return 'buf=%s reader=%s text=%r' % (variant_of(case), rd, s) + (' program=' + pretty(prog) if prog is not None else '')
 
 
